@@ -66,7 +66,7 @@ func (r *Run) RunCold(w *W, scenario string, race bool) {
 	reported := false
 	sc := bufio.NewScanner(&out)
 	sc.Buffer(make([]byte, 1<<20), 1<<24)
-	var tail []string
+	var tail, crash []string
 	for sc.Scan() {
 		line := sc.Text()
 		if strings.HasPrefix(line, coldPrefix) {
@@ -81,6 +81,12 @@ func (r *Run) RunCold(w *W, scenario string, race bool) {
 			}
 			continue
 		}
+		if crash == nil && (strings.Contains(line, "panic:") || strings.Contains(line, "fatal error:") || strings.Contains(line, "DATA RACE") || strings.Contains(line, "race detected")) {
+			crash = []string{} // the crash report starts here: keep its first lines (a goroutine dump can be very long)
+		}
+		if crash != nil && len(crash) < 40 {
+			crash = append(crash, line)
+		}
 		tail = append(tail, line)
 		if len(tail) > 25 {
 			tail = tail[1:]
@@ -88,8 +94,8 @@ func (r *Run) RunCold(w *W, scenario string, race bool) {
 	}
 	if err != nil && !reported {
 		text := strings.Join(tail, "\n")
-		if strings.Contains(text, "panic:") || strings.Contains(text, "fatal error:") || strings.Contains(text, "DATA RACE") || strings.Contains(text, "race detected") {
-			w.Fail(ColdCase{Cold: scenario}, "cold-start-crash", "fresh process with first calls "+scenario+" died: "+truncate(text, 1500))
+		if crash != nil {
+			w.Fail(ColdCase{Cold: scenario}, "cold-start-crash", "fresh process with first calls "+scenario+" died: "+truncate(strings.Join(crash, "\n"), 2500))
 		} else {
 			r.Inconclusive("cold start scenario " + scenario + ": child failed without a report: " + truncate(text, 300))
 		}
